@@ -1,6 +1,9 @@
 // C14 (crypt_ra / crypt_gensalt_ra allocation protocol) and C15 (allocation and
 // mapping failures: fault enumeration).  Links libcrypt-ip.a: the library's
 // malloc/realloc/free/mmap/munmap go through the ledger in shims.hpp.
+#include <sys/wait.h>
+#include <unistd.h>
+
 #include "api.hpp"
 #include "main.hpp"
 #include "methods.hpp"
@@ -302,7 +305,102 @@ static FRes c15_run_call(const FCall &f, long k1, long k2, bool followup, Bytes 
   return r;
 }
 
+// crypt() and crypt_gensalt() keep their result in storage the library owns.  Whatever that storage is, a request
+// for it can only be issued by the first call of a process: each probe therefore runs in a forked child of this
+// process, which itself never calls the two functions.
+struct SRes {
+  bool crashed = false, null_ret = true;
+  int err = 0, wstatus = 0;
+  long nreq = 0;
+  Bytes out, follow;
+};
+static SRes c15_static_child(int which, const Bytes &P, const Bytes &Sx, long k) {
+  SRes r;
+  int fd[2];
+  if (pipe(fd)) { r.crashed = true; return r; }
+  fflush(stdout);
+  fflush(stderr);
+  pid_t pid = fork();
+  if (pid == 0) {
+    close(fd[0]);
+    auto &S = shim::S();
+    char *(*volatile fcrypt_)(const char *, const char *) = crypt;
+    char *(*volatile fgensalt_)(const char *, unsigned long, const char *, int) = crypt_gensalt;
+    char rb[32];
+    memset(rb, 0x41, sizeof rb);
+    S.begin(k, -1);
+    errno = 0;
+    char *p = which == 0 ? fcrypt_(P.c_str(), Sx.c_str()) : fgensalt_(Sx.c_str(), 0, rb, 32);
+    int e = errno;
+    long nreq = 0;
+    for (auto &ev : S.events)
+      if (ev.kind != 'f') nreq++;
+    S.end();
+    std::string first = p ? p : "";
+    char *q = which == 0 ? fcrypt_(P.c_str(), Sx.c_str()) : fgensalt_(Sx.c_str(), 0, rb, 32);
+    std::string msg = std::string(p ? "1" : "0") + "\n" + std::to_string(e) + "\n" + std::to_string(nreq) + "\n" + first + "\n" + (q ? q : "\x01NULL") + "\n";
+    (void)!write(fd[1], msg.data(), msg.size());
+    _exit(0);
+  }
+  close(fd[1]);
+  std::string buf;
+  char t[1024];
+  ssize_t n;
+  while ((n = read(fd[0], t, sizeof t)) > 0) buf.append(t, (size_t)n);
+  close(fd[0]);
+  int st = 0;
+  waitpid(pid, &st, 0);
+  r.wstatus = st;
+  std::vector<std::string> f;
+  size_t pos = 0;
+  while (pos < buf.size()) {
+    size_t e = buf.find('\n', pos);
+    if (e == std::string::npos) break;
+    f.push_back(buf.substr(pos, e - pos));
+    pos = e + 1;
+  }
+  if (!WIFEXITED(st) || WEXITSTATUS(st) != 0 || f.size() < 5) { r.crashed = true; return r; }
+  r.null_ret = f[0] == "0";
+  r.err = atoi(f[1].c_str());
+  r.nreq = atol(f[2].c_str());
+  r.out = f[3];
+  r.follow = f[4];
+  return r;
+}
+static Verdict c15_static(const KV &c, Ctx &ctx) {
+  int which = (int)c.geti("static_entry") & 1;
+  Bytes P = c.get("phrase"), Sx = c.get("setting");
+  P = P.substr(0, P.find('\0'));
+  Sx = Sx.substr(0, Sx.find('\0'));
+  Cost cost = decode_cost(Sx, P.size());
+  cost.units *= 8;
+  if (which == 0 && !affordable(cost, ctx.tier, 80ULL << 20)) { ctx.st.skipped_cost++; return ""; }
+  shim::S().map_cap = 512ULL << 20;
+  std::string desc = std::string(which == 0 ? "crypt" : "crypt_gensalt") + "(" + (which == 0 ? "\"" + vis(P, 20) + "\", " : "") + "\"" + vis(Sx, 80) + "\") as the first such call of a process";
+  SRes base = c15_static_child(which, P, Sx, -1);
+  ctx.st.executed += 2;
+  if (base.crashed) return "C15 internal: the fault-free " + desc + " did not complete (wait status " + std::to_string(base.wstatus) + ")";
+  ctx.st.cls(std::string("c15-static/") + (which == 0 ? "crypt" : "crypt_gensalt") + "/requests" + std::to_string(base.nreq));
+  for (long k = 0; k < base.nreq; k++) {
+    SRes r = c15_static_child(which, P, Sx, k);
+    ctx.st.executed += 2;
+    std::string at = " with request " + std::to_string(k) + " failing, in " + desc;
+    if (r.crashed) return "C15 the process was terminated (wait status " + std::to_string(r.wstatus) + ")" + at;
+    ctx.st.nontrivial++;
+    ctx.st.distinct_by_construction++;
+    bool token = !r.null_ret && !r.out.empty() && r.out[0] == '*';
+    bool same = !r.null_ret && r.out == base.out;
+    // a failed huge-page attempt may be retried; otherwise the call must fail
+    if (!r.null_ret && !token && !same) return "C15 the call returned \"" + vis(r.out, 80) + "\" although a request failed" + at;
+    if ((r.null_ret || token) && r.err != EINVAL && r.err != ERANGE && r.err != ENOMEM) return "C15 errno " + std::to_string(r.err) + " after a failed request is not a documented code" + at;
+    if (which == 0 && r.follow != base.follow) return "C15 the next fault-free call gives \"" + vis(r.follow, 80) + "\" instead of \"" + vis(base.follow, 80) + "\"" + at;
+  }
+  if (ctx.st.samples.size() < ctx.st.sample_cap && ctx.st.seen.insert(fnv(c.serialize())).second) ctx.st.sample(desc + ": " + std::to_string(base.nreq) + " allocator/mapping requests, every one failed in turn (each in a fresh child)");
+  return "";
+}
+
 static Verdict c15_check(const KV &c, Ctx &ctx) {
+  if (c.has("static_entry")) return c15_static(c, ctx);
   FCall f;
   f.kind = (int)c.geti("kind") & 3;
   f.phrase = c.get("phrase");
@@ -422,6 +520,7 @@ static int c15_run(Ctx &ctx) {
     if (kind == 2) s = g::oneof<const char *>({"$y$", "$6$", "$2b$", "", "$zz$", "$7$", "$sha1", "$md5"});
     c.set("setting", s);
     c.set("phrase", g::phrase(200));
+    if (g::coin(1, 8)) c.seti("static_entry", g::coin(3, 4) ? 0 : 1);
     c.seti("pair_a", g::pick(0, 1000));
     c.seti("pair_b", g::pick(0, 1000));
     return c;
